@@ -9,6 +9,7 @@ import (
 	"runtime"
 	"strconv"
 	"strings"
+	"sync/atomic"
 )
 
 var errNilPointer = runtimeError("runtime error: invalid memory address or nil pointer dereference")
@@ -120,6 +121,13 @@ func (vm *VM) convertPanic(msg any) error {
 		return err
 	case outError:
 		return vm.newPanic(err)
+	case error:
+		// A Scriggo function called through a native value runs in its own
+		// virtual machine; if the context is canceled while it is running,
+		// that machine terminates with the context's error.
+		if vm.env.ctx != nil && atomic.LoadInt32(&vm.env.done) == 1 && err == vm.env.ctx.Err() {
+			return err
+		}
 	}
 	switch op := vm.fn.Body[vm.pc-1].Op; op {
 	case OpAddr, OpIndex, -OpIndex, OpIndexRef, -OpIndexRef, OpSetSlice, -OpSetSlice:
